@@ -12,6 +12,7 @@ package multiendpoint
 
 import (
 	"fmt"
+	"runtime"
 	"sort"
 	"strings"
 	"testing"
@@ -153,6 +154,9 @@ type meRun struct {
 	lateQ []*meTimer
 	late  bool
 	idx   int64
+	prop  string
+	// sameInstant: the next op happens at the same clock reading as the previous one
+	sameInstant bool
 }
 
 var meNames = []string{"A", "B", "C", "D", "E"}
@@ -268,7 +272,9 @@ func (h *meRun) check(step string, prevCur string, isTimer bool, quiescent bool)
 
 func (h *meRun) fire(t *meTimer) {
 	prev := h.me.Current()
-	t.fn()
+	if !h.guard("timer callback", t.fn) {
+		return
+	}
 	h.m.expire(h.clk.now)
 	h.hit("C14.timer-fired")
 	h.check(fmt.Sprintf("timer#%d", t.seq), prev, true, false)
@@ -330,7 +336,7 @@ func (h *meRun) advance(dt time.Duration) {
 	}
 }
 
-func meRunHistory(rng *vRand, r, d time.Duration, n int, late bool, idx int64) *meRun {
+func meRunHistory(rng *vRand, r, d time.Duration, n int, late bool, idx int64, prop string) *meRun {
 	clk := &meClock{now: meEpoch}
 	clk.install()
 	k := 2 + rng.Intn(4)
@@ -339,7 +345,7 @@ func meRunHistory(rng *vRand, r, d time.Duration, n int, late bool, idx int64) *
 		j := rng.Intn(i + 1)
 		init[i], init[j] = init[j], init[i]
 	}
-	h := &meRun{rng: rng, clk: clk, hits: map[string]int64{}, late: late, idx: idx}
+	h := &meRun{rng: rng, clk: clk, hits: map[string]int64{}, late: late, idx: idx, prop: prop}
 	me, err := NewMultiEndpoint(&MultiEndpointOptions{Endpoints: init, RecoveryTimeout: r, SwitchingDelay: d})
 	if err != nil {
 		h.fail("C13.init", "", "NewMultiEndpoint(%v): %v", init, err)
@@ -365,7 +371,9 @@ func meRunHistory(rng *vRand, r, d time.Duration, n int, late bool, idx int64) *
 		h.lateQ = h.lateQ[1:]
 		h.say("late timer#%d runs", t.seq)
 		prev := h.me.Current()
-		t.fn()
+		if !h.guard("late timer callback", t.fn) {
+			return h
+		}
 		h.m.expire(clk.now)
 		h.check(fmt.Sprintf("late#%d", t.seq), prev, true, false)
 	}
@@ -392,13 +400,22 @@ func meRunHistory(rng *vRand, r, d time.Duration, n int, late bool, idx int64) *
 
 func (h *meRun) step() {
 	rng, clk, m := h.rng, h.clk, h.m
-	clk.now = clk.now.Add(time.Nanosecond)
+	if !h.late && len(h.lateQ) == 0 && rng.Intn(8) == 0 {
+		// two operations at the same clock reading (coarse clocks): only without
+		// late callbacks, whose "already fired" semantics are tied to distinct instants
+		h.say("(same instant)")
+		h.hit("C14.same-instant")
+	} else {
+		clk.now = clk.now.Add(time.Nanosecond)
+	}
 	if len(h.lateQ) > 0 && rng.Intn(2) == 0 {
 		t := h.lateQ[0]
 		h.lateQ = h.lateQ[1:]
 		h.say("late timer#%d runs", t.seq)
 		prev := h.me.Current()
-		t.fn()
+		if !h.guard("late timer callback", t.fn) {
+			return
+		}
 		m.expire(clk.now)
 		h.check(fmt.Sprintf("late#%d", t.seq), prev, true, len(h.lateQ) == 0 && len(clk.due(clk.now)) == 0)
 		return
@@ -439,11 +456,28 @@ func (h *meRun) step() {
 	}
 }
 
+// guard runs f (a call into the code under test); a panic is a violation of
+// whichever of C13/C14 is being checked (the object is unusable afterwards).
+func (h *meRun) guard(what string, f func()) (ok bool) {
+	defer func() {
+		if r := recover(); r != nil {
+			buf := make([]byte, 1<<14)
+			st := string(buf[:runtime.Stack(buf, false)])
+			h.fail(h.prop+".panic", vPanicKind(r)+"@"+vPanicSite(st, "multiendpoint."), "%s panicked: %v", what, r)
+			ok = false
+		}
+	}()
+	f()
+	return true
+}
+
 func (h *meRun) opAvail(e string, av bool) {
 	clk, m := h.clk, h.m
 	prev := h.me.Current()
 	h.say("avail %s %v", e, av)
-	h.me.SetEndpointAvailability(e, av)
+	if !h.guard("SetEndpointAvailability", func() { h.me.SetEndpointAvailability(e, av) }) {
+		return
+	}
 	if s, ok := m.st[e]; ok {
 		if av {
 			if s.status == meR {
@@ -470,7 +504,10 @@ func (h *meRun) opSet(l []string) {
 	clk, m := h.clk, h.m
 	prev := h.me.Current()
 	h.say("set %v", l)
-	err := h.me.SetEndpoints(l)
+	var err error
+	if !h.guard("SetEndpoints", func() { err = h.me.SetEndpoints(l) }) {
+		return
+	}
 	if len(l) == 0 {
 		h.hit("C13.empty-rejected")
 		if err == nil {
@@ -558,10 +595,10 @@ func meAlphabet(r, d time.Duration) []meOp {
 }
 
 // meRunScript executes one fixed op sequence (timers in creation order, no late callbacks).
-func meRunScript(r, d time.Duration, init []string, ops []meOp, idx int64) *meRun {
+func meRunScript(r, d time.Duration, init []string, ops []meOp, idx int64, prop string) *meRun {
 	clk := &meClock{now: meEpoch}
 	clk.install()
-	h := &meRun{rng: &vRand{s: 1}, clk: clk, hits: map[string]int64{}, idx: idx}
+	h := &meRun{rng: &vRand{s: 1}, clk: clk, hits: map[string]int64{}, idx: idx, prop: prop}
 	me, err := NewMultiEndpoint(&MultiEndpointOptions{Endpoints: init, RecoveryTimeout: r, SwitchingDelay: d})
 	if err != nil {
 		h.fail("C13.init", "", "NewMultiEndpoint(%v): %v", init, err)
@@ -648,7 +685,7 @@ func TestVerifMEExhaustive(t *testing.T) {
 				ops[i] = al[c%int64(n)]
 				c /= int64(n)
 			}
-			h := meRunScript(r, d, []string{"A", "B", "C"}, ops, caseNo-1)
+			h := meRunScript(r, d, []string{"A", "B", "C"}, ops, caseNo-1, env.Prop)
 			total++
 			out.Evaluations++
 			for k, v := range h.hits {
@@ -713,7 +750,7 @@ func TestVerifME(t *testing.T) {
 		}
 		late := rng.Intn(3) == 0
 		n := 10 + rng.Intn(31)
-		h := meRunHistory(rng, cfg[0]*time.Millisecond, cfg[1]*time.Millisecond, n, late, idx)
+		h := meRunHistory(rng, cfg[0]*time.Millisecond, cfg[1]*time.Millisecond, n, late, idx, env.Prop)
 		out.Evaluations++
 		for k, v := range h.hits {
 			out.hitN(k, v)
